@@ -168,6 +168,10 @@ func CheckCall(sc *Scenario, v *CallView, rs RuleSet, em int) []Violation {
 			if x.Ended && len(x.Sames) == 0 {
 				add("local-lost", "", fmt.Sprintf("%s: rule %d assigned x but could not read it back", c, x.Rule))
 			}
+			if !x.Ended && !x.Fired && len(x.Sames) == 0 && v.CR >= 0 && !panicked && rd.Has(SecLocal) && onlyPlainSections(rd) {
+				// nothing was planned to fail in this rule and nothing in it can: it stopped where it reads its own local back
+				add("local-lost", "read-failed", fmt.Sprintf("%s: rule %d assigned x and then failed where it reads x back (no fault was planned in it)", c, x.Rule))
+			}
 		}
 	}
 
@@ -382,6 +386,18 @@ func CheckCall(sc *Scenario, v *CallView, rs RuleSet, em int) []Violation {
 		}
 	}
 	return out
+}
+
+// onlyPlainSections: the rule consists of sections that never fail by themselves.
+func onlyPlainSections(rd *RuleDef) bool {
+	for _, s := range rd.Secs {
+		switch s.Kind {
+		case SecY, SecLocal, SecShW, SecShR:
+		default:
+			return false
+		}
+	}
+	return rd.Ret == RetNone || rd.Ret == RetNestedV
 }
 
 func nextEventOfTask(v *CallView, x *Exec) int64 {
